@@ -262,6 +262,7 @@ impl Scenario for C02Global {
                 let obs = obs2.clone();
                 let sh = shareds2[i as usize].clone();
                 let delay = p.installer_delay;
+                let ilog = log2.clone();
                 hs.push(dsim::spawn(&format!("installer{}", i), move || {
                     for _ in 0..delay {
                         dsim::point("c02g.idle");
@@ -272,6 +273,7 @@ impl Scenario for C02Global {
                     let ret = dsim::step();
                     dsim::point("c02g.set.end");
                     let mut o = obs.lock().unwrap();
+                    let mut rejected = None;
                     match res {
                         Ok(()) => o.sets.push((i, inv, ret, true)),
                         Err(e) => {
@@ -283,9 +285,28 @@ impl Scenario for C02Global {
                             if sh.drops.load(Ordering::SeqCst) != 0 {
                                 o.errors.push(("loser-recorder-dropped-by-library".into(), format!("installer {}: drop count {} before the caller dropped it", i, sh.drops.load(Ordering::SeqCst))));
                             }
-                            drop(o);
-                            drop(r);
+                            rejected = Some(r);
                         }
+                    }
+                    drop(o);
+                    drop(rejected);
+                    // an installing thread goes on to emit, whether its install was accepted or not
+                    for _ in 0..2 {
+                        dsim::point("c02g.installer.emit");
+                        let me = dsim::tid();
+                        let before = ilog.lock().unwrap().len();
+                        let inv = dsim::step();
+                        metrics::counter!("c02_global_by_installer").increment(1);
+                        let ret = dsim::step();
+                        let l = ilog.lock().unwrap();
+                        let mine: Vec<&crate::doubles::Ev> = l[before..].iter().filter(|e| e.tid == me && e.op.starts_with("register")).collect();
+                        let id = match mine.len() {
+                            0 => None,
+                            1 => Some(mine[0].rec),
+                            _ => Some(u32::MAX),
+                        };
+                        drop(l);
+                        obs.lock().unwrap().loads.push((me, inv, ret, id));
                     }
                 }));
             }
